@@ -4,7 +4,7 @@
    result = 0 :: payload for a normal return, 1 :: [code] for a Python exception,
    2 :: [] for "unknown function / malformed arguments" (harness bug, never a verdict). *)
 From Coq Require Import ZArith List Bool String.
-From MP Require Import Algo.Base Algo.Libmpf Algo.Libmpc Algo.Libmpi.
+From MP Require Import Algo.Base Algo.Libmpf Algo.Libmpc Algo.Libmpi Algo.Ctxfun.
 Import ListNotations.
 Open Scope Z_scope.
 
@@ -173,6 +173,31 @@ Definition table_cplx : list (string * handler) := [
             end) | _ => None end)
 ].
 
+Definition enc_xint (x : xint) : list Z := match x with XFin z => [0; z] | XNinf => [1; 0] | XPinf => [2; 0] | XNan => [3; 0] end.
+Definition table_ctx : list (string * handler) := [
+  ("mpf_mag"%string, fun a => match a with [s;m;e;b] => Some (0 :: enc_xint (mpf_mag (Mpf s m e b))) | _ => None end);
+  ("mpc_mag"%string, fun a => match a with [s;m;e;b;s2;m2;e2;b2] => Some (0 :: enc_xint (mpc_mag (Mpf s m e b) (Mpf s2 m2 e2 b2))) | _ => None end);
+  ("int_mag"%string, fun a => match a with [n] => Some (0 :: enc_xint (int_mag n)) | _ => None end);
+  ("mpq_mag"%string, fun a => match a with [p;q] => Some (0 :: enc_xint (mpq_mag p q)) | _ => None end);
+  ("nint_distance_mpf"%string, fun a => match a with [s;m;e;b] =>
+      Some (out_res (fun r => (fst r :: enc_xint (snd r))%list) (nint_distance_mpf (Mpf s m e b))) | _ => None end);
+  ("nint_distance_mpc"%string, fun a => match a with [s;m;e;b;s2;m2;e2;b2] =>
+      Some (out_res (fun r => (fst r :: enc_xint (snd r))%list) (nint_distance_mpc (Mpf s m e b) (Mpf s2 m2 e2 b2))) | _ => None end);
+  ("nint_distance_mpq"%string, fun a => match a with [p;q] =>
+      Some (let r := nint_distance_mpq p q in (0 :: fst r :: enc_xint (snd r))%list) | _ => None end);
+  ("mpf_isint"%string, fun a => match a with [s;m;e;b] => Some (0 :: enc_bool (mpf_isint (Mpf s m e b))) | _ => None end);
+  ("mpc_isint"%string, fun a => match a with [s;m;e;b;s2;m2;e2;b2;g] => Some (0 :: enc_bool (mpc_isint (Mpf s m e b) (Mpf s2 m2 e2 b2) (negb (g =? 0)))) | _ => None end);
+  ("mpf_isnpint"%string, fun a => match a with [s;m;e;b] => Some (0 :: enc_bool (mpf_isnpint (Mpf s m e b))) | _ => None end);
+  ("mpf_class"%string, fun a => match a with [s;m;e;b] =>
+      let x := Mpf s m e b in Some (0 :: enc_bool (mpf_isnan x) ++ enc_bool (mpf_isinf x) ++ enc_bool (mpf_isnormal x) ++ enc_bool (mpf_isfinite x))%list | _ => None end);
+  ("pickle_roundtrip"%string, fun a => match a with [s;m;e;b] =>
+      let p := to_pickable (Mpf s m e b) in
+      Some (0 :: enc_mpf (from_pickable p) ++ snd (fst (fst p)))%list | _ => None end);
+  ("from_float_parts"%string, fun a => match a with [m;e;p;r] => Some (out_mpf (from_float_parts m e p (rnd_of_Z r))) | _ => None end);
+  ("to_float_parts"%string, fun a => match a with [s;m;e;b;r] =>
+      Some (let '(mm, ee) := to_float_parts (Mpf s m e b) (rnd_of_Z r) in [0; mm; ee]) | _ => None end)
+].
+
 Fixpoint lookup (f : string) (t : list (string * handler)) : option handler :=
   match t with
   | [] => None
@@ -185,4 +210,4 @@ Definition dispatch_in (t : list (string * handler)) (f : string) (a : list Z) :
   | None => bad
   end.
 
-Definition dispatch (f : string) (a : list Z) : list Z := dispatch_in (table_mpf ++ table_cplx)%list f a.
+Definition dispatch (f : string) (a : list Z) : list Z := dispatch_in (table_mpf ++ table_cplx ++ table_ctx)%list f a.
